@@ -2,7 +2,8 @@
 C16 - reading results never changes them.
 
 History BFS over retrieval / rendering / caller-side-mutation calls on (i) a Model whose public EquationSolver has
-solved a block (with a traced step and a steady-state run for the 'step' and 'initial' groups), (ii) a bare
+solved a block (with a traced step and a steady-state run for the 'step' and 'initial' groups) or was stepped
+period by period and stopped half-way (stored series of unequal length), (ii) a bare
 EquationSolver / TimeSeriesHolder and (iii) a BaseSolver subclass instance.  Reference model: a deep snapshot of all
 stored holders taken right after solving; expected return value = snapshot[name][:cutoff+1] minus the first point
 under suppression.  After EVERY operation the stored holders must still equal the snapshot.
@@ -24,7 +25,7 @@ RULE = ('states = (flags cutoff/suppression, whether the caller still holds a re
         'GetTimeSeries(name in {x,k,missing}, cutoff in {None,0,2,10}, group in {main,step,initial}), set TimeSeriesCutoff {None,2}, set '
         'TimeSeriesSupressTimeZero {F,T}, mutate the list returned last (append/pop/clear/assign), GenerateCSVtext(fmt) on solver and holders, '
         'GetSeriesList() and mutation of the returned name list, BaseSolver.CreateCsvString(); all histories up to the depth bound replayed on '
-        'freshly solved objects; oracle per transition: return value == reference, stored holders == snapshot, rendering == first rendering; '
+        'freshly solved objects and (one level shallower) on a solver stepped half-way, whose stored series are of unequal length; oracle per transition: return value == reference, stored holders == snapshot, rendering == first rendering; '
         'non-trivial = histories containing a caller-side mutation or a flag change followed by a retrieval')
 ASSUMPTIONS = [
     'the harness owns the objects: nothing else touches the solver between operations',
@@ -43,6 +44,22 @@ def fresh_model():
     s.ParameterInitialSteadyStateMaxTime = 60
     m.EquationSolver = s
     s.SolveEquation()
+    return m
+
+
+STEP_BLOCK = 'x = .5*x + y + g\ny = .25*x + 2\nz = x + y\nexogenous\ng = [1., 2., 3., 4., 5.]\nMaxTime = 4\nErr_Tolerance = 1e-6'
+
+
+def stepped_model():
+    """A solver stepped period by period and stopped half-way: the stored series are of unequal length (the exogenous
+    series and the time axis are complete, the solved ones are not)."""
+    m = Model()
+    s = EquationSolver(STEP_BLOCK)
+    m.EquationSolver = s
+    s.ExtractVariableList()
+    s.SetInitialConditions()
+    s.SolveStep(1)
+    s.SolveStep(2)
     return m
 
 
@@ -67,10 +84,12 @@ OPS += [['csv', 'solver', None], ['csv', 'main', None]]          # default forma
 OPS += [['serieslist', 'main'], ['mutate-names', 'clear'], ['mutate-names', 'reverse']]
 
 
-def run_history(hist):
-    """Replay on a freshly solved model. Returns violation or None."""
+def run_history(hist, start='solved'):
+    """Replay on a freshly solved (or half-way stepped) model. Returns violation or None."""
     case = {'target': 'model', 'history': hist}
-    m = fresh_model()
+    if start != 'solved':
+        case['start'] = start
+    m = fresh_model() if start == 'solved' else stepped_model()
     ref = snap(m)
     cutoff_flag = None
     suppress = False
@@ -118,6 +137,8 @@ def run_history(hist):
                         last[0] = -1.0
             elif op[0] == 'csv':
                 fmt = op[2] if op[2] is not None else '%.5g'
+                if op[1] != 'solver' and not ref[op[1]]:
+                    continue        # nothing stored in that group (half-way stepped solver): rendering it is not part of the alphabet
                 if op[1] == 'solver':
                     txt = m.EquationSolver.GenerateCSVtext(op[2]) if op[2] is not None else m.EquationSolver.GenerateCSVtext()
                     key = ('main', fmt)
@@ -219,6 +240,7 @@ def nontrivial(hist):
 
 def units(tier):
     out = [{'target': 'model', 'first': i, 'depth': BOUNDS[tier]['depth']} for i in range(len(OPS))]
+    out += [{'target': 'model', 'start': 'stepped', 'first': i, 'depth': BOUNDS[tier]['depth'] - 1} for i in range(len(OPS))]
     out.append({'target': 'basesolver', 'depth': BOUNDS[tier]['depth'] + 1})
     return out
 
@@ -232,8 +254,8 @@ def run_unit(unit, tier):
         for n in range(1, depth + 1):
             for rest in itertools.product(range(len(OPS)), repeat=n - 1):
                 hist = [OPS[unit['first']]] + [OPS[i] for i in rest]
-                dig.add(repr(hist))
-                v = run_history(hist)
+                dig.add(unit.get('start', 'solved') + repr(hist))
+                v = run_history(hist, unit.get('start', 'solved'))
                 res['evaluations'] += 1
                 res['transitions'] += len(hist)
                 res['traces'] += 1
@@ -283,7 +305,7 @@ def run_unit(unit, tier):
 
 def replay(case):
     if case['target'] == 'model':
-        v = run_history([list(o) for o in case['history']])
+        v = run_history([list(o) for o in case['history']], case.get('start', 'solved'))
     else:
         v = run_bs_history(case['varlist'], [list(o) for o in case['history']])
     return [v] if v else []
